@@ -202,17 +202,18 @@ class HSFZConnection:
                 raise RuntimeError(f"unexpected frame: {frame}")
 
     async def read_frame(self) -> HSFZDiagFrame | int:
-        if not self._closed:
-            frame = await self._read_queue.get()
-            if frame is not None:
-                return frame
+        if self._closed:
+            if sys.platform != "win32":
+                raise OSError(errno.EBADFD)
+            else:
+                raise RuntimeError("connection already closed")
+
+        frame = await self._read_queue.get()
+        if frame is None:
             # The connection has been closed while waiting; keep the marker for other readers
             self._read_queue.put_nowait(None)
-
-        if sys.platform != "win32":
-            raise OSError(errno.EBADFD)
-        else:
-            raise RuntimeError("connection already closed")
+            raise ConnectionError("connection closed")
+        return frame
 
     async def read_diag_request(self) -> bytes:
         unexpected_packets = []
